@@ -23,6 +23,7 @@ type pubParams struct {
 	Snaps     bool   // take stop-point snapshots
 	Prelude   [3]int // completed publishes per level before the episode (wrap positioning)
 	NoClose   bool   // leave the client open (the caller closes)
+	Restarts  int    // stops with AdoptSession on the same Persistence after the publish phase
 }
 
 func sizeOf(c *run.Ctx, bigP float64) int {
@@ -70,6 +71,9 @@ func runPubWorkload(c *run.Ctx, pp pubParams) (*Episode, *pubAnalysis, []*sim.Pu
 			}
 			return sim.PointAction{}
 		}
+	}
+	if !pp.Snaps && c.Rng.Intn(3) == 0 {
+		ep.W.Store.AliasLoad = true
 	}
 	if err := ep.Init(); err != nil {
 		c.Violate("init-failed", "InitSession: "+err.Error(), nil)
@@ -158,12 +162,56 @@ func runPubWorkload(c *run.Ctx, pp pubParams) (*Episode, *pubAnalysis, []*sim.Pu
 		<-done
 	}
 
+	// stop and restart on the same Persistence, then publish some more
+	for r := 0; r < pp.Restarts; r++ {
+		if !ep.D.CloseAndWait() {
+			c.Violate("close-stuck", "Close did not end the client at a stop", map[string]any{"trace_tail": ep.W.TraceTail(40)})
+			c.Spoiled()
+			return ep, nil, nil
+		}
+		collect()
+		ep.W.Log(sim.Event{Kind: "adopt", N: ep.D.Gen + 1})
+		ep.W.Mu.Lock()
+		ep.F.Armed = false // a Persistence error during adoption is a legitimate fatal
+		ep.W.Mu.Unlock()
+		warn, fatal := ep.Adopt()
+		ep.W.Mu.Lock()
+		ep.F.Armed = true
+		ep.W.Mu.Unlock()
+		if fatal != nil {
+			c.Violate("adopt-fatal", "AdoptSession failed at a stop: "+fatal.Error(), map[string]any{"trace_tail": ep.W.TraceTail(40), "faults": ep.F.Fired})
+			return ep, nil, nil
+		}
+		for _, e := range warn {
+			c.Violate("adopt-warns", "AdoptSession warned on an undamaged store: "+e.Error(), map[string]any{"trace_tail": ep.W.TraceTail(40)})
+		}
+		ep.D.StartReader()
+		for i := 0; i < 1+c.Rng.Intn(4); i++ {
+			ep.D.Publish(pp.Levels[c.Rng.Intn(len(pp.Levels))], false, sizeOf(c, 0))
+			if c.Rng.Intn(2) == 0 {
+				ep.W.WaitIdle(sim.StepTimeout)
+			}
+		}
+	}
+
 	// faults stop; run to idle
 	ep.F.Heal(ep.W)
 	ep.W.Broker.ReleaseHeld()
-	pubs := ep.D.PubsSnapshot()
-	_ = pubs
-	status, report := ep.awaitOrDiagnose("all exchanges closed after faults stopped", ep.D.AllClosed)
+	allDone := func() bool {
+		if !ep.D.AllClosed() {
+			return false
+		}
+		if pp.Restarts > 0 {
+			// transfers of an earlier generation have no exchange to watch
+			for k := range ep.W.Store.CurrentLocked() {
+				if k >= 0x8000 && k <= 0xffff {
+					return false
+				}
+			}
+		}
+		return true
+	}
+	status, report := ep.awaitOrDiagnose("all exchanges closed after faults stopped", allDone)
 	final := true
 	switch status {
 	case "wedged":
@@ -230,9 +278,14 @@ func reportPubs(c *run.Ctx, ep *Episode, a *pubAnalysis, all []*sim.Pub, props .
 	}
 	c.Count("publishes_accepted", accepted)
 	c.Count("exchanges_closed", closed)
+	ep.W.Mu.Lock()
 	c.Count("connections", len(ep.W.Conns))
 	c.Count("store_ops", len(ep.W.Store.Ops))
 	c.Count("events", len(ep.W.Trace))
+	if ep.W.Store.AliasLoad {
+		c.Count("episodes_with_aliasing_load", 1)
+	}
+	ep.W.Mu.Unlock()
 	for k, n := range ep.F.Fired {
 		c.Count("fault."+k, n)
 	}
